@@ -305,6 +305,72 @@ theorem keygen_ok_of_success (ts : List ClapTape) (h : ∃ t ∈ ts, clapotis Sh
         | head => rw [hc] at hk; cases hk
         | tail _ hm => exact ⟨t', hm, hk⟩
 
+/-! ### bounded work
+
+Termination of the control skeleton GIVEN termination of the leaf routines.  Every path of sign (three variants) makes
+at most `N` calls of leaf routines, with N computed from the loop budgets in the C text; key generation makes exactly
+as many translation attempts as the position of the first successful one.
+Leaf routines with their own bounded loops: find_uv (finite enumeration), fixed_degree_isogeny → represent_integer_non_diag and
+represent_integer (KLPT_repres_num_gamma_trial rounds), generate_random_prime (KLPT_random_prime_attempts · bitsize rounds),
+quat_lattice_lll, the theta / isogeny chains (length of the strategy).  Leaf loops WITHOUT a bound in the C text (they end with
+probability 1 only): the two `while (!found)` loops of sampling_random_ideal_O0 (square root modulo the norm exists; random element
+coprime to the norm), the hint searches of ec/basis.c, and the keygen retry itself. -/
+
+theorem clapCalls_le (B : Budget) (t : ClapTape) : clapCalls B t ≤ B.uv + 2 * (1 + B.nd) := by
+  unfold clapCalls
+  have : min (t.uvFails + 1) B.uv ≤ B.uv := Nat.min_le_right _ _
+  split
+  · omega
+  · split <;> omega
+
+/-- **sign_bounded** — every path of the three signers performs at most N leaf calls -/
+theorem sign_bounded (B : Budget) (t2 : Dim2Tape) (th : HeurTape) (tries : Nat) :
+    callsDim2 B t2 tries ≤ 2 * (B.uv + 2 * (1 + B.nd)) + B.samp + 2 ∧
+    callsHeur B th tries ≤ (1 + B.nd) + (B.uv + 2 * (1 + B.nd)) + B.samp + 2 ∧
+    callsHd B tries ≤ (1 + B.nd) + B.samp + 1 := by
+  have h1 := clapCalls_le B t2.com
+  have h2 := clapCalls_le B t2.aux
+  have h3 := clapCalls_le B th.aux
+  have h4 : min tries B.samp ≤ B.samp := Nat.min_le_right _ _
+  unfold callsDim2 callsHeur callsHd
+  omega
+
+/-- key generation: with a successful attempt at position k (0-based) on the tape, exactly the attempts 0..k are made,
+the outcome is `ok`, and nothing after position k is consumed -/
+theorem keygen_attempts (pre : List ClapTape) (good : ClapTape) (post : List ClapTape)
+    (hpre : ∀ t ∈ pre, clapotis Shape.allChecked t = .ok false) (hgood : clapotis Shape.allChecked good = .ok true) :
+    flowKeygen Shape.allChecked true (pre ++ good :: post) = some .ok ∧
+    keygenAttempts (pre ++ good :: post) = pre.length + 1 := by
+  induction pre with
+  | nil =>
+    rw [clap_all] at hgood
+    have hg : (decide (good.uvFails < 3) && !good.fuFail && !good.fvFail) = true := by
+      cases h : (decide (good.uvFails < 3) && !good.fuFail && !good.fvFail) <;> simp_all
+    constructor
+    · simp [flowKeygen, clap_all, hg]
+    · simp [keygenAttempts, hg]
+  | cons t pre ih =>
+    have ht := hpre t (by simp)
+    have ih' := ih (fun x hx => hpre x (by simp [hx]))
+    rw [clap_all] at ht
+    have hf : (decide (t.uvFails < 3) && !t.fuFail && !t.fvFail) = false := by
+      cases h : (decide (t.uvFails < 3) && !t.fuFail && !t.fvFail) <;> simp_all
+    constructor
+    · simp only [List.cons_append, flowKeygen, clap_all, hf, if_true]; exact ih'.1
+    · simp only [List.cons_append, keygenAttempts, hf, List.length_cons]; rw [ih'.2]; simp; omega
+
+/-- … and on a tape on which every listed attempt fails the retry loop does not stop (the C loop has no bound) -/
+theorem keygen_unbounded (ts : List ClapTape) (h : ∀ t ∈ ts, clapotis Shape.allChecked t = .ok false) :
+    flowKeygen Shape.allChecked true ts = none := by
+  induction ts with
+  | nil => rfl
+  | cons t ts ih =>
+    have ht := h t (by simp)
+    unfold flowKeygen
+    rw [ht]
+    simp only [if_true]
+    exact ih (fun x hx => h x (by simp [hx]))
+
 /-! ### negation: a call site that drops the failure of its callee
 
 Each statement holds for EVERY shape in which the named flag is off (the other flags are arbitrary): the
